@@ -196,6 +196,42 @@ fn lookup_onecharacter(code: &str) -> Option<CodeEntry> {
     Some((Phenomenon::Unrecognized, code.get(2..3)?.into()))
 }
 
+#[cfg(feature = "verif-hooks")]
+#[allow(missing_docs)]
+pub mod verif {
+    //! Verification hooks: dump of the private code books
+    use crate::{Phenomenon, SignificanceLevel};
+
+    pub fn codebook3() -> Vec<(&'static str, Phenomenon, SignificanceLevel)> {
+        let mut out: Vec<_> = super::CODEBOOK3
+            .entries()
+            .map(|(k, v)| (*k, v.0, v.1))
+            .collect();
+        out.sort_by_key(|e| e.0);
+        out
+    }
+
+    pub fn codebook2() -> Vec<(&'static str, Phenomenon)> {
+        let mut out: Vec<_> = super::CODEBOOK2.entries().map(|(k, v)| (*k, *v)).collect();
+        out.sort_by_key(|e| e.0);
+        out
+    }
+
+    pub fn phenomena() -> Vec<Phenomenon> {
+        use strum::IntoEnumIterator;
+        Phenomenon::iter().collect()
+    }
+
+    pub fn significance_levels() -> Vec<SignificanceLevel> {
+        use strum::IntoEnumIterator;
+        SignificanceLevel::iter().collect()
+    }
+
+    pub fn phenomenon_pattern(p: Phenomenon) -> &'static str {
+        p.as_full_pattern_str()
+    }
+}
+
 #[cfg(test)]
 mod tests {
     use super::*;
